@@ -645,6 +645,7 @@ def live_case(mon, rng, c, tier):
             a0, a1 = to_pair(MAX_TOKENS if base_amt is None else base_amt, MAX_TOKENS if quote_amt is None else quote_amt)
             mode = "whole-balance"
         removal = rng.choice(["full", "full", "no-collect", "two-parts", "merged"])
+        fz.cur_tick = cur_tick
         _round_trip(
             mon, rng, Dr, w, m, fz, bal, to_pair, variant, removal, lo, up, rk, sp, base_amt, quote_amt, a0, a1, mode,
             sqrt_arg, tick_arg, price, d0, d1, q0, c, bar,
@@ -715,6 +716,19 @@ def _round_trip(mon, rng, Dr, w, m, fz, bal, to_pair, variant, removal, lo, up, 
                 )
         pc = price_class(s, psa, psb)
         reg = O.region(s, psa, psb)
+        if variant in ("default", "by-price"):
+            # the bar's price is the price of tick T (that is what the preparation writes): a bound of the range is a tick too, so
+            # T decides on which side of each bound the price is; the sqrt price the market derives must say the same
+            T = fz.cur_tick
+            want = "on-lower" if T == plo else ("on-upper" if T == pup else ("below" if T < plo else ("above" if T > pup else "inside")))
+            mon.ev()
+            mon.cls(f"live/tick-price-vs-range/{want}")
+            if reg != want:
+                mon.violation(
+                    "uniswap", op, "sqrt-price-used", f"tick-price-on-the-wrong-side-of-a-bound/{want}->{reg}",
+                    f"the bar's price is the price of tick {T}, range ({plo},{pup}): expected {want}, the sqrt price used ({s}) is {reg} "
+                    f"(ratio(lower) {psa}, ratio(upper) {psb}); {ctx()}",
+                )
 
         def ctx2():
             return ctx() + f" -> position ({plo},{pup}) sqrt used {s} [{pc}] liquidity {L} used token0={u0} token1={u1}"
